@@ -150,6 +150,7 @@ func cmdCheck(args []string) int {
 	env, err := LoadEnv(*specDir, spec.Files, spec.ExtraPkgs)
 	if err != nil {
 		fmt.Fprintln(os.Stderr, "load:", err)
+		fmt.Println("INCONCLUSIVE: loading /repo with the harness overlay failed:", err)
 		return 2
 	}
 	loadS := time.Since(start).Seconds()
